@@ -7,6 +7,7 @@ open C17TypedModel
 open C17HistModel
 open C17TieModel
 open C17NaluModel
+open C17SizeModel
 open Base
 
 let parse_msg (s : string) : msg =
@@ -104,14 +105,22 @@ let res_string (f : 'a -> string) (r : 'a res) : string * string =
   | OutOfFuel -> ("fuel", "-")
 
 (* T lines: Size(), Payload() (through the C13 FixedSliceWriter model AND as plain bits), decode *)
-let typed_line id wclass size payload dclass dstr (msize : BinNums.coq_N) (mpl : BinNums.coq_N list)
+(* which theorems speak about this value: canon = canonical (all typed theorems), widths = not canonical but the
+   writer widths are within 56 bits (C17_size_any_value), out = neither; printed behind OK and counted by the check *)
+let dom_tc (cl : clock list) : string =
+  if tc_canonical cl then "canon" else if tc_widths_ok cl then "widths" else "out"
+let dom_pt (m : pic_timing) : string =
+  if pt_canonical m then "canon" else if pt_widths_ok m then "widths" else "out"
+
+let typed_line ?(dom = "canon") id wclass size payload dclass dstr (msize : BinNums.coq_N) (mpl : BinNums.coq_N list)
     (mspec : BinNums.coq_N list) ((mdc, mds) : string * string) =
   if wclass <> "ok" then Printf.printf "MISMATCH %s Payload() class=%s (model: ok)\n" id wclass
   else if hex_of_n msize <> size then Printf.printf "MISMATCH %s size model=%s\n" id (hex_of_n msize)
   else if hex_of_bytes mpl <> payload then Printf.printf "MISMATCH %s payload model=%s\n" id (hex_of_bytes mpl)
   else if hex_of_bytes mspec <> payload then Printf.printf "MISMATCH %s payload(bit-list spec) model=%s\n" id (hex_of_bytes mspec)
   else if mdc <> dclass || mds <> dstr then Printf.printf "MISMATCH %s decode model=%s %s\n" id mdc mds
-  else Printf.printf "OK %s\n" id
+  else if dom <> "out" && Printf.sprintf "%x" (L.length mpl) <> size then Printf.printf "MISMATCH %s size-any-value: payload length differs from Size() inside the domain of C17_size_any_value\n" id
+  else Printf.printf "OK %s dom=%s\n" id dom
 
 let dec_line id dclass dstr ((mdc, mds) : string * string) =
   if mdc <> dclass || mds <> dstr then Printf.printf "MISMATCH %s decode model=%s %s\n" id mdc mds
@@ -151,7 +160,7 @@ let typed (fields : string list) : bool =
   | ["T136"; id; cs; wclass; size; payload; dclass; dstr] ->
     let cl = parse_clocks cs in
     let pl = tc_payload cl in
-    typed_line id wclass size payload dclass dstr (tc_size cl) pl (tc_payload_spec cl)
+    typed_line ~dom:(dom_tc cl) id wclass size payload dclass dstr (tc_size cl) pl (tc_payload_spec cl)
       (both id (res_string clocks_string (tc_decode pl)) (res_string clocks_string (tc_decode_go pl))); true
   | ["D136"; id; payload; dclass; dstr] ->
     let pl = bytes_of_hex payload in
@@ -159,7 +168,7 @@ let typed (fields : string list) : bool =
   | ["T1"; id; ms; wclass; size; payload; dclass; dstr] ->
     let m = parse_pt ms in
     let pl = pt_payload m in
-    typed_line id wclass size payload dclass dstr (pt_size m) pl (pt_payload_spec m)
+    typed_line ~dom:(dom_pt m) id wclass size payload dclass dstr (pt_size m) pl (pt_payload_spec m)
       (both id (res_string pt_string (pt_decode m.p_hrd m.p_tolen pl)) (res_string pt_string (pt_decode_go m.p_hrd m.p_tolen pl))); true
   | ["D1"; id; hrd; tolen; payload; dclass; dstr] ->
     let pl = bytes_of_hex payload in
@@ -210,7 +219,7 @@ let typed (fields : string list) : bool =
     else if hex_of_bytes mpl <> payload then Printf.printf "MISMATCH %s payload model=%s (from the final exported fields)\n" id (hex_of_bytes mpl)
     else if hex_of_bytes mwritten <> written then Printf.printf "MISMATCH %s written model=%s\n" id (hex_of_bytes mwritten)
     else if mdc <> dclass || mds <> dstr then Printf.printf "MISMATCH %s decode model=%s %s\n" id mdc mds
-    else Printf.printf "OK %s\n" id; true
+    else Printf.printf "OK %s dom=%s\n" id (match t with TTimeCode cs -> dom_tc cs | TPicTiming m -> dom_pt m | _ -> "canon"); true
   | ["HP"; id; which; _hist; par; payload; dclass; fp; fz] ->
     (* a decoded pass-through message after edits of its exported fields: payload and size unchanged *)
     let pl = bytes_of_hex payload in
